@@ -257,6 +257,10 @@ def g_dead_code(R, tier):
                "an unsupported statement after break/continue/return in the same block is dropped without an error", replay=dict(kind="src", src=src, expect="raises"), backend="witness")
     else:
         R.bounded("pending_nodes._PendingCompoundStmt._iter_branch/statements-after-a-direct-interrupt-are-validated", True, "witness rejected")
+    c06.native_finding(R, "pending_nodes.PendingAssign.get_result/W1-target-expressions-of-an-annotation-without-value-are-evaluated",
+                       "`f()[g()]: T` without a value evaluates f() and g() (Language Reference 7.2.2: the target is evaluated except for the last store); "
+                       "the statement converts to nothing (distinct from the dropped annotation expression itself)",
+                       "log = []\ndef f():\n    log.append('f')\n    return {}\ndef g():\n    log.append('g')\n    return 'k'\nf()[g()]: int\nf().attr: int\nr = log\n")
     src2 = "for *a, *b in [[1, 2]]:\n    pass\n"
     rep = RU.replay_source(src2, "raises")
     if rep.get("reproduced"):
